@@ -12,6 +12,9 @@ use std::io::{self, BufRead, Write};
 use std::panic;
 use std::str::FromStr;
 
+#[cfg(feature = "hooks")]
+mod state;
+
 fn unhex(s: &str) -> String {
     let mut bytes = Vec::new();
     let b = s.as_bytes();
@@ -221,6 +224,54 @@ fn handle(vm: &mut Option<Vm>, line: &str) -> String {
                 }
             }
             last
+        }
+        #[cfg(feature = "hooks")]
+        "gcstep" => {
+            // one collection from a fabricated state
+            let sx = state::parse_sx(&unhex_arg(parts[1]));
+            let mut v = state::build_vm(&sx);
+            v.run_gc();
+            format!("OK {}", hex(&state::dump_vm(&mut v)))
+        }
+        #[cfg(feature = "hooks")]
+        "vmsteps" => {
+            // n single instructions from a fabricated state; stops early at HALT or error
+            let sx = state::parse_sx(&unhex_arg(parts[1]));
+            let n: usize = parts[2].parse().unwrap();
+            let mut v = state::build_vm(&sx);
+            let mut status = String::from("RUNNING");
+            let mut done = 0;
+            for _ in 0..n {
+                match v.verif_step() {
+                    Ok(true) => {
+                        status = "HALT".into();
+                        done += 1;
+                        break;
+                    }
+                    Ok(false) => done += 1,
+                    Err(e) => {
+                        status = format!("ERR:{}", hex(&format!("{:?}", e)));
+                        done += 1;
+                        break;
+                    }
+                }
+            }
+            format!("OK {} {} {}", status, done, hex(&state::dump_vm(&mut v)))
+        }
+        #[cfg(feature = "hooks")]
+        "runcount" => {
+            // Vm::run_count(count) on a fabricated state
+            let sx = state::parse_sx(&unhex_arg(parts[1]));
+            let n: usize = parts[2].parse().unwrap();
+            let mut v = state::build_vm(&sx);
+            let r = v.run_count(n);
+            let rs = match r {
+                Ok(Some(c)) => format!("VALUE:{}", hex(&format!("{:#}", c))),
+                Ok(None) => "NONE".into(),
+                Err(e) => format!("ERR:{}", hex(&format!("{:?}", e))),
+            };
+            let frames = v.last_stacktrace().map(|t| t.frames.len() as i64).unwrap_or(-1);
+            format!("OK {} {} {}", rs, frames, hex(&state::dump_vm(&mut v)))
         }
         other => format!("UNKNOWN {}", other),
     }
